@@ -203,6 +203,7 @@ int  vw_capture_stdout(void);                     /* stdout -> an anonymous file
 void vw_mute_stdout(void);                        /* library printf output -> /dev/null until vw_finish */
 void vw_unmute_stdout(void);
 void vw_inflight(const char *fmt, ...) __attribute__((format(printf, 1, 2)));
+void vw_watchdog(const char *what, int cpu_seconds); /* (re)arms the CPU-time watchdog; vw_case arms 90 s per case */
 void vw_case(uint64_t caseno);                    /* marks the start of a case */
 void vw_nontrivial(uint64_t hash);                /* counts a non-trivial case, remembers its hash */
 bool vw_want_sample(void);
